@@ -282,9 +282,17 @@ class MovingWindow(ChangeDetector):
             exact format depends on annotation type
         """
         self.scores = self.transform_scores(X)
+        # Scores are only computed at [bandwidth, n - bandwidth]. The zero padding
+        # outside is not a test statistic and must not be compared to the threshold
+        # (it exceeds a negative threshold).
+        first = self.bandwidth
+        last = len(self.scores) - self.bandwidth
         changepoints = get_moving_window_changepoints(
-            self.scores.values, self.threshold_, self.min_detection_interval
+            self.scores.values[first : last + 1],
+            self.threshold_,
+            self.min_detection_interval,
         )
+        changepoints = [int(cpt) + first for cpt in changepoints]
         return ChangeDetector._format_sparse_output(changepoints)
 
     @classmethod
